@@ -641,7 +641,7 @@ def database_text(rng):
         t, kinds = mutate(rng, b(MINI_DB))
         return t, "mini:" + "+".join(kinds)
     if r < 0.8:
-        dbs = [d for d in sorted(DBDIR.glob("*.dat")) if d.stat().st_size < 400000]
+        dbs = [d for d in sorted(DBDIR.glob("*.dat")) if d.stat().st_size < 800000]
         d = rng.choice(dbs)
         t, kinds = mutate(rng, d.read_bytes().replace(b"\0", b" "))
         return t, d.name + ":" + "+".join(kinds)
@@ -680,3 +680,69 @@ def file_case(rng):
         p2 = rng.choice(["nosuchdir_c08/x.out", ".", "", "x" * 300, "dir_c08", "nosuch.inc", "a b"])
         return dict(kind="input-names-bad-file", ops=[("run", b("SOLUTION 0-2\n Na 1\n Cl 1\n" + opt.format(p=p2) + "END\n"))], sw=[("selfile", 1), ("dumpfile", 1)])
     return dict(kind="runfile-of-mutant", ops=[("runfile_text", None)])
+
+
+# ------------------------------------------------------------------------------------------------ multi-simulation inputs, include files, histories
+
+VALID_SIMS = ["SOLUTION 1\n pH 7\n Na 1\n Cl 1\nEND\n", "SOLUTION 2\n pH 8\n Ca 1\n C 2\nEQUILIBRIUM_PHASES 2\n Calcite 0 1\nSAVE solution 3\nEND\n",
+              "SOLUTION 4\n K 1\n Cl 1\nSELECTED_OUTPUT 1\n -totals K\nUSER_PUNCH 1\n -headings k\n 10 PUNCH TOT(\"K\")\nEND\n",
+              "SOLUTION 5\n Na 2\n Cl 2\nREACTION 5\n NaCl 1\n 0.1 in 2 steps\nEND\n", "TITLE t\nSOLUTION 6\nEXCHANGE 6\n X 0.1\n -equilibrate 6\nEND\n"]
+
+
+def bad_sim(rng):
+    """one simulation (bytes, ends with END) that is usually wrong"""
+    r = rng.random()
+    if r < 0.3:
+        t, _ = entities_input(rng)
+    elif r < 0.5:
+        t, _ = basic_input(rng)
+    elif r < 0.75:
+        t, _ = grammar_input(rng)
+    elif r < 0.85:
+        t = b("SOLUTION 1\n pH 7\n Na 1\nEQUILIBRIUM_PHASES 1\n Nophase 0 1\nEND\n")
+    else:
+        f = vlib.REPO / "gtest" / "conv_fail.in"
+        t = f.read_bytes() if f.exists() else b("USE solution 99\nEND\n")
+    if not t.rstrip().upper().endswith(b"END"):
+        t += b"\nEND\n"
+    return t
+
+
+def multisim_input(rng):
+    """(text, files, tag): errors in non-final simulations, include files with errors inside / missing / nested / self-including"""
+    kind = rng.choice(["bad-middle", "bad-first", "include-error-inside", "include-missing-middle", "include-nested-error", "include-self", "include-bad-then-more",
+                       "include-no-newline", "bad-middle"])
+    files = {}
+    good = lambda: b(rng.choice(VALID_SIMS))
+    if kind == "bad-middle":
+        t = good() + bad_sim(rng) + good()
+    elif kind == "bad-first":
+        t = bad_sim(rng) + good() + good()
+    elif kind == "include-error-inside":
+        files["inc_a.pqi"] = good()[:-4] + bad_sim(rng)
+        t = good() + b"INCLUDE$ inc_a.pqi\n" + good()
+    elif kind == "include-missing-middle":
+        t = good() + b"SOLUTION 9\n Na 1\n" + b(rng.choice(["INCLUDE$ nosuch_c08.inc\n", "include_file  nosuch dir/x\n", "INCLUDE$\n", "INCLUDE$ .\n", "INCLUDE$ dir_c08\n"])) + b"END\n" + good()
+    elif kind == "include-nested-error":
+        files["inc_b.pqi"] = bad_sim(rng)
+        files["inc_a.pqi"] = b"SOLUTION 7\n Na 1\nINCLUDE$ inc_b.pqi\nEND\n" + good()
+        t = b"INCLUDE$ inc_a.pqi\n" + good()
+    elif kind == "include-self":
+        files["inc_self.pqi"] = b"SOLUTION 8\n Na 1\nEND\nINCLUDE$ inc_self.pqi\n"
+        t = good() + b"INCLUDE$ inc_self.pqi\n" + good()
+    elif kind == "include-bad-then-more":
+        files["inc_a.pqi"] = rand_bytes(rng, rng.choice([10, 200]))
+        t = b"INCLUDE$ inc_a.pqi\n" + good() + bad_sim(rng)
+    else:
+        files["inc_a.pqi"] = b"SOLUTION 7\n Na 1\n Xx 1"            # no trailing newline, ends inside a block
+        t = b"INCLUDE$ inc_a.pqi\n -bogus 3\nEND\n" + good()
+    return t, files, kind
+
+
+def shipped_databases():
+    """[(path, ends_with_END)] for every shipped database"""
+    out = []
+    for d in sorted(DBDIR.glob("*.dat")):
+        # read_database stops at the first END line; a database without one is read to end-of-file
+        out.append((str(d), bool(re.search(rb"(?im)^[ \t]*END[ \t]*\r?$", d.read_bytes()))))
+    return out
